@@ -104,6 +104,7 @@ class Frame:
     def __init__(self, mod, qual, env):
         self.mod, self.qual, self.env = mod, qual, env
         self.loop_ordinal = 0
+        self.aliases = {}        # local name -> access path of the object it names (x = container[...]: x IS that element)
 
 
 BUILTIN_EXC = set(EXC_PARENTS) | {"BaseException"}
@@ -251,6 +252,8 @@ class Engine:
 
     def lookup(self, name, node=None):
         fr = self.frame
+        if name in fr.aliases:
+            return self.read_path(fr.aliases[name])
         if name in fr.env:
             return fr.env[name]
         return self.module_name(fr.mod, name, node)
@@ -350,6 +353,15 @@ class Engine:
 
     def ex_Assign(self, node):
         val = self.ev(node.value)
+        for tgt in node.targets:
+            if isinstance(tgt, ast.Name):
+                self.frame.aliases.pop(tgt.id, None)
+        if (len(node.targets) == 1 and isinstance(node.targets[0], ast.Name) and isinstance(val, Rec) and is_path(node.value)
+                and not isinstance(node.value, ast.Name) and root_name(node.value) in self.frame.env):
+            # x = obj.container[key]: python binds x to the SAME object; later stores through x must reach the container
+            self.frame.env[node.targets[0].id] = val
+            self.frame.aliases[node.targets[0].id] = self.lvalue(node.value)
+            return
         if isinstance(val, NArr) and len(node.targets) == 1 and isinstance(node.targets[0], ast.Name):
             val = self.name_large(val, node.targets[0].id)
         if isinstance(val, Opt) and not isinstance(val.none, bool) and not self.feasible(val.none):
@@ -502,8 +514,11 @@ class Engine:
         items = self.concrete_items(it)
         if items is not None:
             try:
-                for item in items:
+                for pos_, item in enumerate(items):
                     self.assign(node.target, item)
+                    if isinstance(node.target, ast.Name) and isinstance(item, Rec) and is_path(node.iter) and root_name(node.iter) in self.frame.env \
+                            and isinstance(it, (CList, tuple)):
+                        self.frame.aliases[node.target.id] = self.lvalue(node.iter) + [("idx", pos_)]
                     try:
                         self.ex_block(node.body)
                     except ContinueEx:
@@ -579,7 +594,11 @@ class Engine:
             # ---- one more iteration
             if seq is not None:
                 self.assume(env[kname] < seq.n)
-                self.assign(node.target, slist_get(seq, env[kname]))
+                elem = slist_get(seq, env[kname])
+                self.assign(node.target, elem)
+                if isinstance(node.target, ast.Name) and isinstance(elem, Rec) and is_path(node.iter) and root_name(node.iter) in env \
+                        and isinstance(self.read_path(self.lvalue(node.iter)), SList):
+                    fr.aliases[node.target.id] = self.lvalue(node.iter) + [("idx", env[kname])]
             else:
                 if not self.choose(truth(self.ev(node.test))):
                     raise PathEnd()
@@ -629,6 +648,12 @@ class Engine:
             return SList(TInt, z3.If(it.hi > it.lo, it.hi - it.lo, 0), [z3.Lambda([i], i + it.lo)])
         if isinstance(it, SDict):
             return self.dict_keys(it)
+        if type(it).__name__ == "DictItems":
+            keys = self.dict_keys(it.d)
+            i = z3.Int("_di")
+            kt = keys.comps[0][i]
+            t = TTuple(it.d.k, it.d.v)
+            return SList(t, keys.n, [z3.Lambda([i], kt)] + [z3.Lambda([i], c[kt]) for c in it.d.comps])
         raise Unsupported(f"iteration over {type(it).__name__}")
 
     def dict_keys(self, d):
@@ -652,8 +677,14 @@ class Engine:
     # ---- assignment
     def assign(self, tgt, val):
         if isinstance(tgt, ast.Name):
+            self.frame.aliases.pop(tgt.id, None)
             if len(self.frames) == 1 and self.contract is not None and tgt.id in self.contract.locals and isinstance(val, CList):
                 val = to_slist(val, self.contract.locals[tgt.id].t)
+            if len(self.frames) == 1 and self.contract is not None and tgt.id in self.contract.locals and isinstance(val, dict) and not val \
+                    and isinstance(self.contract.locals[tgt.id], TDict):
+                dt = self.contract.locals[tgt.id]
+                ks = key_sort_of(dt.k)
+                val = SDict(dt.k, dt.v, z3.K(ks, False), [z3.K(ks, z3.FreshConst(srt, "dv")) for srt in dt.v.sorts()])
             self.frame.env[tgt.id] = val
         elif isinstance(tgt, (ast.Tuple, ast.List)):
             items = self.unpack(val, len(tgt.elts), tgt)
@@ -680,6 +711,8 @@ class Engine:
     def lvalue(self, node):
         """access path  [('name', x), ('attr', f) | ('idx', v) ...]"""
         if isinstance(node, ast.Name):
+            if node.id in self.frame.aliases:
+                return list(self.frame.aliases[node.id])
             return [("name", node.id)]
         if isinstance(node, ast.Attribute):
             return self.lvalue(node.value) + [("attr", node.attr)]
@@ -694,7 +727,7 @@ class Engine:
         raise Unsupported(f"lvalue {type(node).__name__}")
 
     def read_path(self, path):
-        v = self.lookup(path[0][1])
+        v = self.frame.env[path[0][1]] if path[0][1] in self.frame.env and path[0][1] not in self.frame.aliases else self.lookup(path[0][1])
         for kind, x in path[1:]:
             if kind == "attr":
                 v = self.get_attr(v, x, None)
@@ -706,6 +739,9 @@ class Engine:
 
     def write_path(self, path, val):
         root = path[0][1]
+        if root in self.frame.aliases:
+            path = list(self.frame.aliases[root]) + list(path[1:])
+            root = path[0][1]
         if len(path) == 1:
             self.frame.env[root] = val
             return
@@ -1511,7 +1547,37 @@ def is_path(node):
     return False
 
 
+def alias_roots(stmts):
+    """name -> root of the path it was bound to by `name = path` / `for name in path` inside these statements"""
+    m = {}
+    for s in stmts:
+        for n in ast.walk(s):
+            if isinstance(n, ast.Assign) and len(n.targets) == 1 and isinstance(n.targets[0], ast.Name) and is_path(n.value) and not isinstance(n.value, ast.Name):
+                r = root_name(n.value)
+                if r:
+                    m.setdefault(n.targets[0].id, set()).add(r)
+            elif isinstance(n, ast.For) and isinstance(n.target, ast.Name) and is_path(n.iter):
+                r = root_name(n.iter)
+                if r:
+                    m.setdefault(n.target.id, set()).add(r)
+    return m
+
+
 def assigned_names(stmts):
+    out = _assigned_names(stmts)
+    amap = alias_roots(stmts)
+    changed = True
+    while changed:
+        changed = False
+        for nm in list(out):
+            for r in amap.get(nm, ()):
+                if r not in out:
+                    out.add(r)
+                    changed = True
+    return out
+
+
+def _assigned_names(stmts):
     out = set()
     for s in stmts:
         for n in ast.walk(s):
